@@ -32,6 +32,8 @@ const basePrelude = `(set-option :produce-models true)
 (assert (forall ((a Str) (b Str) (c Str)) (! (=> (and (strlt a b) (strlt b c)) (strlt a c)) :pattern ((strlt a b) (strlt b c)))))
 (assert (forall ((a Str) (b Str)) (! (or (strlt a b) (= a b) (strlt b a)) :pattern ((strlt a b)))))
 (declare-fun strcat (Str Str) Str)
+(define-fun godiv ((x Int) (y Int)) Int
+  (ite (>= x 0) (ite (> y 0) (div x y) (- (div x (- y)))) (ite (> y 0) (- (div (- x) y)) (div (- x) (- y)))))
 (declare-fun strlen (Str) Int)
 `
 
